@@ -131,6 +131,17 @@ func TestVerifC09(t *testing.T) {
 					fail, tag = fmt.Sprintf("op %d: %s", i, f), tg
 				}
 			}
+			if op == "reopen" && fail == "" && strings.Contains(impl[i], "segs=") {
+				// a clean restart changes nothing: what a clean removed stays removed, what it kept is there
+				a, b := vParseSegs(impl[pre]), vParseSegs(impl[i])
+				same := len(a) == len(b)
+				for k := 0; same && k < len(a); k++ {
+					same = a[k].base == b[k].base && a[k].first == b[k].first && a[k].last == b[k].last && a[k].count == b[k].count
+				}
+				if !same {
+					fail, tag = fmt.Sprintf("op %d: after a clean restart the log has segments %v, before it had %v (base first last count bytes lastWrite): segments removed by retention are back, or kept ones are gone", i, b, a), "retention-undone-by-restart"
+				}
+			}
 			if strings.Contains(impl[i], "segs=") {
 				pre = i
 			}
@@ -304,7 +315,7 @@ func TestVerifC09(t *testing.T) {
 			}
 			prog = append(prog, fmt.Sprintf("clean %d", pickTTL()))
 		}
-		prog = append(prog, "read 0 u", "reopen", "lastoff 1")
+		prog = append(prog, "read 0 u", "reopen", "read 0 u", "lastoff 1")
 		check(prog, lim)
 		if len(res.Failures) >= 10 {
 			break
